@@ -503,7 +503,12 @@ fn eval(name: &str, a: &[Value]) -> Value {
                 .work_directory(tmp.clone()).temp_directory(tmp.clone()).file(std::path::PathBuf::from("f.md"))
                 .config(scrut::config::DocumentConfig::empty()).build().unwrap();
             let mut config = scrut::config::TestCaseConfig::empty();
-            config.timeout = Some(std::time::Duration::from_secs(10));
+            // optional 2nd argument: the test case's time limit in milliseconds (null = none); default 10 s
+            config.timeout = match a.get(1) {
+                Some(v) if v.is_null() => None,
+                Some(v) => Some(std::time::Duration::from_millis(v.as_u64().unwrap_or(10_000))),
+                None => Some(std::time::Duration::from_secs(10)),
+            };
             let testcase = scrut::testcase::TestCase { title: "t".into(), shell_expression: str_arg(&a[0]), expectations: vec![],
                 exit_code: None, line_number: 1, config };
             let out = runner.run("exec1", &testcase, &context);
